@@ -38,6 +38,14 @@ CLAIMED["C17"] = dict(
     note="Trusted: SimReader fault model; the harness transcribes the 12-line format dispatch of ReadSequencesFromFile for the library stage. Third-party decoders that return a clean EOF on some truncations are recorded as known findings (decoder-silent classes).",
 )
 
+CLAIMED["C03"] = dict(
+    level="exploration",
+    design="DESIGN.md 4 (C03)",
+    technique="deterministic simulation: random compositions of the real stream combinators under a seeded scheduler with dense yields, injected batch partitions and arrival permutations, list-model oracle (exactly-once, order, batch numbering, termination)",
+    text="Random source > stages > sink compositions of the real obiiter combinators are run with every kind of batch partition (empty batches and empty streams included), arrival permutation, 1-4 workers per stage and seeded interleavings (sub-statement yields inside obiiter and the pools); each output is compared with a list model of the composition: exactly-once as a multiset, input order for order-preserving chains, batch numbers 0..m-1 without gap or duplicate, mates in step, and termination (scheduler-detected deadlock).",
+    note="Trusted: the list models (filter = list filter, rebatch = regroup, distribute = stable partition, pool = multiset union, concat = concatenation, fragments = window arithmetic). Not modelled, stated in DESIGN.md: MakeIConditionalWorker (drop-or-keep semantics of unselected records is not documented), LimitMemory (depends on runtime.MemStats), CopyTee (unused), Speed (identity when stderr is not a terminal).",
+)
+
 PENDING = {
 }
 
